@@ -99,18 +99,29 @@ Lemma tstep_cases c ch p l ch' p' :
   (p = PWaiting /\ l = LAcquire /\ ch < cap c /\ ch' = ch + 1 /\ p' = PRunning) \/
   (p = PWaiting /\ l = LTimeout /\ tmo c > 0 /\ ch' = ch /\ p' = PDone RTimeout) \/
   (exists o, p = PRunning /\ l = LEnd o /\ ch' = ch /\ p' = PReleasing o) \/
-  (exists o, p = PReleasing o /\ l = LRelease /\ 0 < ch /\ ch' = ch - 1 /\ p' = PDone (ROut o)).
+  (exists o, p = PReleasing o /\ l = LRelease /\ 0 < ch /\ ch' = ch - 1 /\ p' = PDone (ROut o)) \/
+  (l = LCancel /\ ch' = ch /\ (p' = p \/ (p = PWaiting /\ tmo c > 0 /\ p' = PDone RTimeout))).
 Proof.
   unfold tstep. intros H.
-  destruct p as [| | |o|r]; destruct l as [| | |o'|]; try discriminate.
-  - inversion H; subst. left. repeat split; reflexivity.
-  - destruct (ch <? cap c) eqn:E; [|discriminate]. inversion H; subst.
+  destruct l as [| | | |o'|].
+  - destruct p as [| | |o|r]; try discriminate.
+    inversion H; subst. left. repeat split; reflexivity.
+  - destruct p as [| | |o|r]; try discriminate.
+    destruct (ch <? cap c) eqn:E; [|discriminate]. inversion H; subst.
     apply Z.ltb_lt in E. right; left. repeat split; try reflexivity. exact E.
-  - destruct (tmo c >? 0) eqn:E; [|discriminate]. inversion H; subst.
+  - destruct p as [| | |o|r]; try discriminate.
+    destruct (tmo c >? 0) eqn:E; [|discriminate]. inversion H; subst.
     rewrite Z.gtb_ltb in E. apply Z.ltb_lt in E. right; right; left. repeat split; try reflexivity. lia.
-  - inversion H; subst. right; right; right; left. exists o'. repeat split; reflexivity.
-  - destruct (0 <? ch) eqn:E; [|discriminate]. inversion H; subst.
-    apply Z.ltb_lt in E. right; right; right; right. exists o. repeat split; try reflexivity. exact E.
+  - do 5 right. split; [reflexivity|].
+    destruct p as [| | |o|r]; try (inversion H; subst; split; [reflexivity|left; reflexivity]).
+    destruct (tmo c >? 0) eqn:E; inversion H; subst; (split; [reflexivity|]).
+    + rewrite Z.gtb_ltb in E. apply Z.ltb_lt in E. right. repeat split; try reflexivity. lia.
+    + left. reflexivity.
+  - destruct p as [| | |o|r]; try discriminate.
+    inversion H; subst. right; right; right; left. exists o'. repeat split; reflexivity.
+  - destruct p as [| | |o|r]; try discriminate.
+    destruct (0 <? ch) eqn:E; [|discriminate]. inversion H; subst.
+    apply Z.ltb_lt in E. right; right; right; right; left. exists o. repeat split; try reflexivity. exact E.
 Qed.
 
 (* --- the invariant: permits in the channel = requests holding one -------- *)
@@ -130,8 +141,9 @@ Proof.
   rewrite (count_upd_nth is_holder _ _ _ p' Hn).
   apply tstep_cases in Ht.
   destruct Ht as [[-> [-> [-> ->]]] | [[-> [-> [Hlt [-> ->]]]] | [[-> [-> [Ht [-> ->]]]] |
-                  [[o [-> [-> [-> ->]]]] | [o [-> [-> [Hpos [-> ->]]]]]]]]];
-    cbn [is_holder b2z]; lia.
+                  [[o [-> [-> [-> ->]]]] | [[o [-> [-> [Hpos [-> ->]]]]] | [-> [-> Hc]]]]]]];
+    try (cbn [is_holder b2z]; lia).
+  destruct Hc as [-> | [-> [_ ->]]]; cbn [is_holder b2z]; lia.
 Qed.
 
 Lemma run_preserves_inv c : forall sched s s', inv c s -> run c s sched = Some s' -> inv c s'.
@@ -180,7 +192,7 @@ Lemma timeout_step_keeps_chan c s i s' :
 Proof.
   intros H. apply step_inv in H. destruct H as [p [ch' [p' [Hn [Ht ->]]]]].
   apply tstep_cases in Ht.
-  destruct Ht as [[_ [E _]] | [[_ [E _]] | [[-> [_ [_ [-> ->]]]] | [[o [_ [E _]]] | [o [_ [E _]]]]]]];
+  destruct Ht as [[_ [E _]] | [[_ [E _]] | [[-> [_ [_ [-> ->]]]] | [[o [_ [E _]]] | [[o [_ [E _]]] | [E _]]]]]];
     try discriminate.
   cbn [chan threads]. split; [reflexivity|]. split; [exact Hn|].
   apply nth_error_upd_nth_same. apply nth_error_Some. congruence.
@@ -200,8 +212,9 @@ Proof.
   - rewrite Hn in Hk. inversion Hk; subst q. exists q'. split.
     + apply nth_error_upd_nth_same. apply nth_error_Some. congruence.
     + apply tstep_cases in Ht.
-      destruct Ht as [[-> _] | [[-> _] | [[-> _] | [[o [_ [_ [_ ->]]]] | [o [_ [_ [_ [_ ->]]]]]]]]];
-        try discriminate; reflexivity.
+      destruct Ht as [[-> _] | [[-> _] | [[-> _] | [[o [_ [_ [_ ->]]]] | [[o [_ [_ [_ [_ ->]]]]] | [_ [_ Hc]]]]]]];
+        try discriminate; try reflexivity.
+      destruct Hc as [-> | [-> _]]; [exact Hr|discriminate].
   - exists p. split; [|exact Hr]. rewrite nth_error_upd_nth_other by exact Hne. exact Hn.
 Qed.
 
@@ -227,7 +240,7 @@ Proof.
     assert (Hp : nth_error (threads s1) i = Some PRunning).
     { apply step_inv in E. destruct E as [p [ch' [p' [Hn [Ht ->]]]]]. cbn [threads].
       apply tstep_cases in Ht.
-      destruct Ht as [[_ [E _]] | [[_ [_ [_ [_ ->]]]] | [[_ [E _]] | [[o [_ [E _]]] | [o [_ [E _]]]]]]];
+      destruct Ht as [[_ [E _]] | [[_ [_ [_ [_ ->]]]] | [[_ [E _]] | [[o [_ [E _]]] | [[o [_ [E _]]] | [E _]]]]]];
         try discriminate.
       apply nth_error_upd_nth_same. apply nth_error_Some. congruence. }
     eapply run_ran_stable; eauto.
@@ -357,7 +370,7 @@ Qed.
 
 Lemma deadlock_free c n sched s :
   0 < cap c -> run c (sem_init n) sched = Some s -> all_done s = false ->
-  exists i l s', l <> LTimeout /\ step c s i l = Some s'.
+  exists i l s', l <> LTimeout /\ l <> LCancel /\ step c s i l = Some s'.
 Proof.
   intros Hc H Hnd.
   pose proof (run_preserves_inv c sched _ _ (inv_init c n ltac:(lia)) H) as Hinv.
@@ -366,9 +379,9 @@ Proof.
   - apply existsb_exists in Ex. destruct Ex as [p [Hin Hp]].
     apply In_nth_error in Hin. destruct Hin as [i Hn].
     destruct p as [| | |o|r]; try discriminate.
-    + exists i, LEnter. unfold step. rewrite Hn. cbn [tstep]. eexists. split; [discriminate|reflexivity].
-    + destruct (enabled_end c s i OOk Hn) as [s' [Hs _]]. exists i, (LEnd OOk), s'. split; [discriminate|exact Hs].
-    + destruct (enabled_release c s i o Hinv Hn) as [s' [Hs _]]. exists i, LRelease, s'. split; [discriminate|exact Hs].
+    + exists i, LEnter. unfold step. rewrite Hn. cbn [tstep]. eexists. split; [discriminate|]. split; [discriminate|reflexivity].
+    + destruct (enabled_end c s i OOk Hn) as [s' [Hs _]]. exists i, (LEnd OOk), s'. split; [discriminate|]. split; [discriminate|exact Hs].
+    + destruct (enabled_release c s i o Hinv Hn) as [s' [Hs _]]. exists i, LRelease, s'. split; [discriminate|]. split; [discriminate|exact Hs].
   - (* everybody is waiting or done, so the channel is empty and a waiter can go *)
     assert (Hwd : forall i p, nth_error (threads s) i = Some p -> is_done p = true \/ p = PWaiting).
     { intros i p Hn. destruct p as [| | |o|r]; try (right; reflexivity); try (left; reflexivity);
@@ -379,33 +392,170 @@ Proof.
     destruct (Hwd i p Hn) as [Hd| ->]; [congruence|].
     destruct Hinv as [Hh _]. unfold holders in Hh. rewrite (all_waiting_or_done_no_holders _ Hwd) in Hh.
     destruct (enabled_acquire c s i ltac:(lia) Hn) as [s' [Hs _]].
-    exists i, LAcquire, s'. split; [discriminate|exact Hs].
+    exists i, LAcquire, s'. split; [discriminate|]. split; [discriminate|exact Hs].
 Qed.
 
-(* every step uses up one of the (at most four) moves of some request: schedules are short *)
+(* every step other than a cancellation of a caller's context uses up one of the (at most
+   four) moves of some request: schedules are short *)
 Lemma step_rank c s i l s' :
-  step c s i l = Some s' -> total_rank (threads s') < total_rank (threads s).
+  step c s i l = Some s' ->
+  total_rank (threads s') + (if is_cancel l then 0 else 1) <= total_rank (threads s).
 Proof.
   intros H. apply step_inv in H. destruct H as [p [ch' [p' [Hn [Ht ->]]]]]. cbn [threads].
   rewrite (total_rank_upd_nth _ _ _ p' Hn). apply tstep_cases in Ht.
-  destruct Ht as [[-> [_ [_ ->]]] | [[-> [_ [_ [_ ->]]]] | [[-> [_ [_ [_ ->]]]] |
-                  [[o [-> [_ [_ ->]]]] | [o [-> [_ [_ [_ ->]]]]]]]]]; cbn [rank]; lia.
+  destruct Ht as [[-> [-> [_ ->]]] | [[-> [-> [_ [_ ->]]]] | [[-> [-> [_ [_ ->]]]] |
+                  [[o [-> [-> [_ ->]]]] | [[o [-> [-> [_ [_ ->]]]]] | [-> [_ Hc]]]]]]];
+    cbn [rank is_cancel]; try lia.
+  destruct Hc as [-> | [-> [_ ->]]]; cbn [rank]; lia.
 Qed.
 
 Lemma run_rank c : forall sched s s',
-  run c s sched = Some s' -> total_rank (threads s') + Z.of_nat (length sched) <= total_rank (threads s).
+  run c s sched = Some s' ->
+  total_rank (threads s') + Z.of_nat (length (own_steps sched)) <= total_rank (threads s).
 Proof.
   induction sched as [|[i l] r IH]; intros s s' H; cbn [run] in H.
-  - inversion H; subst. cbn [length]. lia.
+  - inversion H; subst. cbn. lia.
   - destruct (step c s i l) as [s1|] eqn:E; [|discriminate].
-    pose proof (step_rank c s i l s1 E). pose proof (IH s1 s' H). cbn [length]. lia.
+    pose proof (step_rank c s i l s1 E). pose proof (IH s1 s' H).
+    unfold own_steps in *. cbn [filter snd]. destruct (is_cancel l); cbn [negb length]; lia.
 Qed.
 
 Lemma schedules_terminate c n sched s :
-  run c (sem_init n) sched = Some s -> Z.of_nat (length sched) <= 4 * Z.of_nat n.
+  run c (sem_init n) sched = Some s -> Z.of_nat (length (own_steps sched)) <= 4 * Z.of_nat n.
 Proof.
   intros H. pose proof (run_rank c sched _ _ H) as Hr. cbn [sem_init threads] in Hr.
   rewrite total_rank_repeat_idle in Hr. pose proof (total_rank_nonneg (threads s)). lia.
+Qed.
+
+(* --- the caller's context; limiters without a timeout ---------------------- *)
+
+Lemma upd_nth_same {A} : forall (l : list A) i x, nth_error l i = Some x -> upd_nth i x l = l.
+Proof.
+  induction l as [|y l IH]; intros i x H; [destruct i; discriminate|].
+  destruct i; cbn in *; [inversion H; reflexivity|]. rewrite (IH i x H). reflexivity.
+Qed.
+
+(* without a timeout the cancellation (or expiry) of a caller's context changes nothing *)
+Lemma cancel_ignored_without_timeout c s i s' :
+  tmo c <= 0 -> step c s i LCancel = Some s' -> s' = s.
+Proof.
+  intros Ht H. apply step_inv in H. destruct H as [p [ch' [p' [Hn [Hs ->]]]]].
+  apply tstep_cases in Hs.
+  destruct Hs as [[_ [E _]] | [[_ [E _]] | [[_ [E _]] | [[o [_ [E _]]] | [[o [_ [E _]]] | [_ [-> Hc]]]]]]];
+    try discriminate.
+  destruct Hc as [-> | [_ [Hpos _]]]; [|lia].
+  rewrite (upd_nth_same _ _ _ Hn). destruct s; reflexivity.
+Qed.
+
+(* with a timeout it is one more way for a queued request to leave, empty-handed *)
+Lemma cancel_step_keeps_chan c s i s' :
+  step c s i LCancel = Some s' ->
+  chan s' = chan s /\
+  (threads s' = threads s \/
+   (nth_error (threads s) i = Some PWaiting /\ tmo c > 0 /\ nth_error (threads s') i = Some (PDone RTimeout))).
+Proof.
+  intros H. apply step_inv in H. destruct H as [p [ch' [p' [Hn [Hs ->]]]]].
+  apply tstep_cases in Hs.
+  destruct Hs as [[_ [E _]] | [[_ [E _]] | [[_ [E _]] | [[o [_ [E _]]] | [[o [_ [E _]]] | [_ [-> Hc]]]]]]];
+    try discriminate.
+  cbn [chan threads]. split; [reflexivity|].
+  destruct Hc as [-> | [-> [Hpos ->]]].
+  - left. apply upd_nth_same. exact Hn.
+  - right. split; [exact Hn|]. split; [exact Hpos|].
+    apply nth_error_upd_nth_same. apply nth_error_Some. congruence.
+Qed.
+
+(* a request that got past the limiter (nil from Acquire) took a permit: from any state in
+   which it had not yet got through, whatever events occur *)
+Lemma step_not_ran c s k l s' i p :
+  step c s k l = Some s' -> nth_error (threads s) i = Some p -> ran p = false ->
+  (k, l) <> (i, LAcquire) ->
+  exists p', nth_error (threads s') i = Some p' /\ ran p' = false.
+Proof.
+  intros H Hn Hr Hne. apply step_inv in H. destruct H as [q [ch' [q' [Hk [Ht ->]]]]]. cbn [threads].
+  destruct (Nat.eq_dec k i) as [->|Hki].
+  - rewrite Hn in Hk. inversion Hk; subst q. exists q'. split.
+    + apply nth_error_upd_nth_same. apply nth_error_Some. congruence.
+    + apply tstep_cases in Ht.
+      destruct Ht as [[_ [_ [_ ->]]] | [[_ [-> _]] | [[_ [_ [_ [_ ->]]]] | [[o [-> _]] | [[o [-> _]] | [_ [_ Hc]]]]]]];
+        try reflexivity; try discriminate; try congruence.
+      destruct Hc as [-> | [_ [_ ->]]]; [exact Hr|reflexivity].
+  - exists p. split; [|exact Hr]. rewrite nth_error_upd_nth_other by exact Hki. exact Hn.
+Qed.
+
+Lemma ran_then_acquired c : forall sched s s' i p p',
+  run c s sched = Some s' -> nth_error (threads s) i = Some p -> ran p = false ->
+  nth_error (threads s') i = Some p' -> ran p' = true -> In (i, LAcquire) sched.
+Proof.
+  induction sched as [|[k l] r IH]; intros s s' i p p' H Hn Hr Hn' Hr'; cbn [run] in H.
+  - inversion H; subst. rewrite Hn in Hn'. inversion Hn'; subst. congruence.
+  - destruct (step c s k l) as [s1|] eqn:E; [|discriminate].
+    destruct (Nat.eq_dec k i) as [->|Hki].
+    + destruct l; try (left; reflexivity);
+        (destruct (step_not_ran c s i _ s1 i p E Hn Hr ltac:(intros X; inversion X)) as [p1 [Hn1 Hr1]];
+         right; eapply IH; eauto).
+    + destruct (step_not_ran c s k l s1 i p E Hn Hr ltac:(intros X; inversion X; congruence)) as [p1 [Hn1 Hr1]].
+      right. eapply IH; eauto.
+Qed.
+
+(* without a timeout nobody is ever turned away *)
+Lemma step_no_timeout_result c s k l s' i :
+  tmo c <= 0 -> step c s k l = Some s' ->
+  nth_error (threads s') i = Some (PDone RTimeout) -> nth_error (threads s) i = Some (PDone RTimeout).
+Proof.
+  intros Ht H Hn'. apply step_inv in H. destruct H as [q [ch' [q' [Hk [Hs ->]]]]]. cbn [threads] in Hn'.
+  destruct (Nat.eq_dec k i) as [->|Hki].
+  - rewrite nth_error_upd_nth_same in Hn' by (apply nth_error_Some; congruence).
+    inversion Hn'; subst q'. apply tstep_cases in Hs.
+    destruct Hs as [[_ [_ [_ E]]] | [[_ [_ [_ [_ E]]]] | [[_ [_ [Hpos _]]] | [[o [_ [_ [_ E]]]] | [[o [_ [_ [_ [_ E]]]]] | [_ [_ Hc]]]]]]];
+      try discriminate; try lia.
+    destruct Hc as [<- | [_ [Hpos _]]]; [exact Hk|lia].
+  - rewrite nth_error_upd_nth_other in Hn' by exact Hki. exact Hn'.
+Qed.
+
+Lemma run_no_timeout_result c : forall sched s s' i,
+  tmo c <= 0 -> run c s sched = Some s' ->
+  nth_error (threads s') i = Some (PDone RTimeout) -> nth_error (threads s) i = Some (PDone RTimeout).
+Proof.
+  induction sched as [|[k l] r IH]; intros s s' i Ht H Hn'; cbn [run] in H.
+  - inversion H; subst. exact Hn'.
+  - destruct (step c s k l) as [s1|] eqn:E; [|discriminate].
+    eapply step_no_timeout_result; eauto.
+Qed.
+
+Lemma nth_error_repeat_idle n i p : nth_error (repeat PIdle n) i = Some p -> p = PIdle.
+Proof. intros H. apply nth_error_In in H. apply repeat_spec in H. exact H. Qed.
+
+(* C17_no_timeout: limiter built without a timeout, any number of requests, any schedule
+   including cancellations of callers' contexts at any moment *)
+Lemma no_timeout_contract c n sched s :
+  0 <= cap c -> tmo c <= 0 -> run c (sem_init n) sched = Some s ->
+  running s <= cap c /\ chan s = holders s /\
+  (forall i p, nth_error (threads s) i = Some p ->
+     p <> PDone RTimeout /\ (ran p = true -> In (i, LAcquire) sched)) /\
+  (forall i o, nth_error (threads s) i = Some (PReleasing o) -> exists s', step c s i LRelease = Some s').
+Proof.
+  intros Hc Ht H.
+  destruct (bounded c n sched s Hc H) as [Hb _].
+  destruct (permits_conserved c n sched s Hc H) as [Hp _].
+  split; [exact Hb|]. split; [exact Hp|]. split.
+  - intros i p Hn. split.
+    + intros ->. pose proof (run_no_timeout_result c sched _ _ i Ht H Hn) as H0.
+      cbn [sem_init threads] in H0. apply nth_error_repeat_idle in H0. discriminate.
+    + intros Hr.
+      destruct (nth_error (threads (sem_init n)) i) as [p0|] eqn:H0.
+      * pose proof H0 as H1. cbn [sem_init threads] in H1. apply nth_error_repeat_idle in H1. subst p0.
+        eapply ran_then_acquired; eauto.
+      * exfalso. (* no such request: the list of requests never changes length *)
+        assert (Hlen : forall sched s s', run c s sched = Some s' -> length (threads s') = length (threads s)).
+        { clear. induction sched as [|[k l] r IH]; intros s s' H; cbn [run] in H; [inversion H; reflexivity|].
+          destruct (step c s k l) as [s1|] eqn:E; [|discriminate]. rewrite (IH _ _ H).
+          apply step_inv in E. destruct E as [q [ch' [q' [_ [_ ->]]]]]. cbn [threads]. apply length_upd_nth. }
+        apply nth_error_None in H0. rewrite <- (Hlen _ _ _ H) in H0.
+        assert (i < length (threads s))%nat by (apply nth_error_Some; congruence). lia.
+  - intros i o Hn.
+    pose proof (run_preserves_inv c sched _ _ (inv_init c n Hc) H) as Hinv.
+    destruct (enabled_release c s i o Hinv Hn) as [s' [Hs _]]. exists s'. exact Hs.
 Qed.
 
 (* [run_upto] is [run] with the position of the first disabled step *)
